@@ -32,6 +32,7 @@ func runC09(c *Ctx) {
 	r.Rule("C09.R3", "section order: generateMatchedSDP and generateUnmatchedSDP only tail-append section literals to the list handed to populateSDP; no remote-loop append is reachable after an unmatched-transceiver or data append, no transceiver append after the data append; populateSDP emits the list by a forward range", 8)
 	r.Rule("C09.R4", "fresh-mid provenance (shared with C06.R1): section ids derive from the remote mid, the section's transceiver or a guarded Plan-B constant; SetMid arguments from the remote mid or the allocator incremented before every use", 8)
 	r.Rule("C09.R7", "same rule as C07.R4: the rejected (port 0) section addTransceiverSDP emits for a transceiver it cannot serve still carries the mid parameter as a=mid, so the transceiver's section keeps its mid in the answer", 3)
+	r.Rule("C09.R8", "findByMid and satisfyTypeAndDirection hand back the remaining transceiver list in its original order (the list parameter, or append(l[:i], l[i+1:]...)), and never write an element of it: the unmatched sections generateMatchedSDP appends keep their relative positions across offers", 2)
 	r.Rule("C09.R5", "fresh-mid allocation sees every existing mid: each iteration of CreateOffer's scans over the current remote description's sections and over the transceivers either compares the element's mid with greaterMid (raise) / allocates with ++, or skips only because the element has no mid or a non-numeric one", 2)
 	r.Rule("C09.R6", "a data-section mid computed from len(sections) is evaluated at the data section's own append, after every other section was appended (keeps the recorded len-based-mid finding from colliding inside one description)", 1)
 	r.NotCovered = append(r.NotCovered,
@@ -46,6 +47,7 @@ func runC09(c *Ctx) {
 	c06Dump(c)
 	c09R5(c, "C09.R5")
 	c09R6(c, "C09.R6")
+	c09R8(c, "C09.R8") // c09b.go
 }
 
 // c09Rules runs every rule of the property on the program held by c.
